@@ -343,6 +343,68 @@ theorem mpsa2d_nonneumann_exact (A : Mat 2) (b : Vec 2) (Ls : List C11.Mat) (hwf
   have := (List.all_eq_true.mp hadm) f (List.mem_range.mpr hf)
   simpa [hnn] using this
 
+/-- The hypothesis `admissible` is discharged by a decidable condition on the topology arrays: on a
+    2-D manifold grid (a node has at most one more face than cells) EVERY Dirichlet/Neumann
+    assignment is admissible — `_eliminate_ncasym` can fire only at a node all of whose faces are
+    Neumann.  This is the property's clause "in 2D with any Dirichlet/Neumann mix". -/
+theorem admissible_of_manifold (hwf : G.WF) (hman : G.manifold = true) : G.admissible = true := by
+  unfold admissible
+  rw [List.all_eq_true]
+  intro f hf
+  have hfl : f < G.numFaces := List.mem_range.mp hf
+  by_cases hn : G.isNeu f = true
+  · simp [hn]
+  · have hn' : G.isNeu f = false := by simpa using hn
+    simp only [hn', Bool.false_or]
+    unfold noElimFace
+    rw [List.all_eq_true]
+    intro v hv
+    have hvn := (G.fnodes_ok hwf f hfl).2 v hv
+    by_contra hel
+    have hel' : G.elimAt v = true := by simpa using hel
+    unfold elimAt at hel'
+    have hlt := of_decide_eq_true hel'
+    have hm := of_decide_eq_true ((List.all_eq_true.mp hman) v (List.mem_range.mpr hvn))
+    have hall := all_of_filter_length G.isNeu (G.facesOf v) (by omega)
+    have := hall f ((G.mem_facesOf v f).mpr ⟨hfl, hv⟩)
+    rw [hn'] at this; cases this
+
+/-- the property's first clause: all boundary faces Dirichlet ⇒ exact on EVERY face -/
+theorem mpsa2d_all_dirichlet_exact (A : Mat 2) (b : Vec 2) (Ls : List C11.Mat) (hwf : G.WF)
+    (hcert : G.certs = some Ls) (hdir : ∀ f < G.numFaces, G.isNeu f = false) (f : Nat) (hf : f < G.numFaces) :
+    (∀ a, G.faceTraction (G.nodeSol Ls (G.affineU A b) (G.affineBc A b)) f a
+        = mulVec (hooke G.lam G.mu A) (G.fnAt f) a) ∧
+    (G.isBoundary f = true →
+      ∀ a, G.faceDisp (G.nodeSol Ls (G.affineU A b) (G.affineBc A b)) f a = affine A b (G.fcAt f) a) := by
+  apply G.mpsa2d_linear_exact A b Ls hwf hcert f hf
+  unfold noElimFace
+  rw [List.all_eq_true]
+  intro v _
+  have h0 : (G.facesOf v).filter G.isNeu = [] := by
+    rw [List.filter_eq_nil_iff]; intro x hx; simp [hdir x ((G.mem_facesOf v x).mp hx).1]
+  simp [elimAt, h0]
+
+/-- the neighbouring entry point `assemble_matrix_rhs` (`div·stress`, `−div·bound_stress·bc`): if
+    the face tractions of a closed cell are all exact, the momentum balance of the cell vanishes, i.e.
+    the cell-centre values of the affine field solve the assembled system with zero source. -/
+theorem cell_balance_zero (S : Mat 2) (T : Nat → Vec 2) (c : Nat)
+    (hT : ∀ f < G.numFaces, ∀ a, T f a = mulVec S (G.fnAt f) a) (hclosed : G.cellClosed c) (a : Fin 2) :
+    G.cellBalance T c a = 0 := by
+  have h0 := hclosed 0
+  have h1 := hclosed 1
+  unfold cellBalance at *
+  have e : ∀ f ∈ List.range G.numFaces,
+      sumList (((G.fcells f).filter (fun p => p.1 == c)).map (fun p => p.2 * T f a))
+        = S a 0 * sumList (((G.fcells f).filter (fun p => p.1 == c)).map (fun p => p.2 * G.fnAt f 0))
+          + S a 1 * sumList (((G.fcells f).filter (fun p => p.1 == c)).map (fun p => p.2 * G.fnAt f 1)) := by
+    intro f hf
+    rw [← sumList_map_lin]
+    apply sumList_map_congr
+    intro p _
+    rw [hT f (List.mem_range.mp hf) a]
+    simp only [mulVec, sumFin_two]; ring
+  rw [sumList_map_congr _ _ _ e, sumList_map_lin, h0, h1]; ring
+
 /-- rigid motions (`A` skew, in particular `A = 0`): zero traction on those faces -/
 theorem mpsa2d_rigid_motion_zero_traction (A : Mat 2) (b : Vec 2) (hskew : ∀ i j, A i j = -A j i)
     (Ls : List C11.Mat) (hwf : G.WF) (hcert : G.certs = some Ls) (f : Nat) (hf : f < G.numFaces)
@@ -479,6 +541,15 @@ example :
         ((exGridS.apply Ls (exGridS.affineU exA exb) (exGridS.affineBc exA exb)).2.getD 0 [],
          (exGridS.apply Ls (exGridS.affineU exA exb) (exGridS.affineBc exA exb)).2.getD 6 []))
       = some (vecToList (affine exA exb (exGridS.fcAt 0)), vecToList (affine exA exb (exGridS.fcAt 6))) := by
+  decide +kernel
+
+/-- `manifold` holds for the example grid (so every boundary assignment on it is admissible), all
+    its cells are closed, and the all-Dirichlet variant has no Neumann face -/
+example : exGridS.manifold = true ∧ exGridS.admissible = true := by decide +kernel
+example : exGridS.admissible = true := exGridS.admissible_of_manifold (by decide +kernel) (by decide +kernel)
+example : ∀ a, exGridS.cellBalance exGridS.fnAt 1 a = 0 := by decide +kernel
+def exGridDir : GridS := { exGridS with isDir := [true, true, true, true, true, true, true] }
+example : exGridDir.WF ∧ (∀ f < exGridDir.numFaces, exGridDir.isNeu f = false) ∧ exGridDir.certs.isSome = true := by
   decide +kernel
 
 /-- the certificate is not vacuous: with both cell centres of the corner node 0 moved onto the line
